@@ -53,13 +53,25 @@ CHECKS = {
    ref="DESIGN §6 C20"),
 }
 
+TS = ("Lean 4.33 kernel; axioms propext, Classical.choice, Quot.sound only; the model is hand-written and tied to /repo by a differential "
+      "harness built against /repo's working tree on every run; rustc, std::alloc::Layout, the global allocator and type layout are trusted")
+
+CHECKS.update({
+ "C15": dict(level="proof", tech="Lean 4 model of the derive algorithm (structural induction) + generated-shape differential + rustc rejection probes", engine="collect",
+   text="Proof (of the modelled algorithm): exact / exact_through_trace / every_type_exact (the derived trace reports exactly the pointers of every well-typed value, for every declaration and nesting), needs_trace_exact / needs_trace_sound, one rejects_* theorem per listed misuse. Tie: the derive is a proc-macro, so the tie is differential — random #[derive(Collect)] declarations generated per run, traced with a recording Trace, compared with the model driver (derivemodel); 65 rejection probes compiled with rustc. Two literal deviations in type-level require_static mode are known findings.",
+   ref="DESIGN §6 C15", note=TS + "; the macro source is modelled by hand, not translated"),
+ "C17": dict(level="proof", tech="Lean 4 arithmetic theorems over all sizes/alignments/lengths + allocator-level differential harness", engine="layout",
+   text="Proof: 14 theorems, universally quantified over sizes, power-of-two alignments, lengths, block addresses, metadata kinds (value/header/meta aligned, disjoint, dealloc_same_layout, thin_fat_roundtrip, tag bits, stable …). Tie: harness_layout exercises the real crate over grids (33k cases quick) under a tracking allocator and compares requested/released layouts, offsets, tag words and std::alloc::Layout itself with the model driver (layoutmodel).",
+   ref="DESIGN §6 C17", note=TS),
+ "C18": dict(level="proof", tech="Lean 4 builder state machine (all action sequences) + builder differential harness", engine="layout",
+   text="Proof: abandon / abandon_events / ctor_panic / complete* / wrong_len / layout for every action sequence and every n, k. Tie: every builder kind x abandonment point x element kind against the real crate (drop-token log, allocator log, metrics before/after) compared with the model.",
+   ref="DESIGN §6 C18", note=TS),
+})
+
 PENDING = {
  "C13": "check being integrated (translator + WriteCap calculus); not claimed yet",
  "C14": "check being built (DynamicRootSet slot-table model); not claimed yet",
- "C15": "check being integrated (derive model + shape differential); not claimed yet",
  "C16": "check being integrated (CollectTable + container differential); not claimed yet",
- "C17": "check being integrated (layout model + layout harness); not claimed yet",
- "C18": "check being integrated (builder state machine + harness); not claimed yet",
  "C19": "check being integrated (conversion identity + SigTable); not claimed yet",
 }
 
@@ -78,8 +90,12 @@ def main():
             "add_only": True,
         },
         "engines": [
-            {"name": "collector", "path": "lean/ harness/ lib/vcheck.py", "serves_properties": [p for p in CHECKS if CHECKS[p].get("engine") is None],
+            {"name": "collector", "path": "lean/ harness/ lib/vcheck.py", "serves_properties": [p for p in sorted(CHECKS) if CHECKS[p].get("engine") is None],
              "kind_free_text": "Lean 4 model + inductive invariant; Rust correspondence harness (line protocol) + monitors"},
+            {"name": "layout", "path": "harness_layout/ lib/eng_layout.py lean/GcArena/Model/{Layout,Builder}.lean lean/LayoutMain.lean", "serves_properties": ["C17", "C18"],
+             "kind_free_text": "Lean arithmetic / state-machine theorems; allocator-level differential harness"},
+            {"name": "collect", "path": "harness_collect/ lib/eng_collect.py lean/GcArena/Model/Derive.lean lean/DeriveMain.lean", "serves_properties": ["C15"],
+             "kind_free_text": "Lean model of derive(Collect); generated-shape differential; rustc rejection probes"},
             {"name": "brand", "path": "extract_brand/ probes_brand/ lib/eng_brand.py lean/GcArena/Model/Brand.lean", "serves_properties": ["C12"],
              "kind_free_text": "syn translator -> Lean table theorems; rustc probe corpus"},
         ],
